@@ -620,7 +620,7 @@ func (w *World) step(ctx context.Context, o Op) (string, string) {
 	if err != nil {
 		// an operation that returns an error must leave everything as it was
 		if expect && !mayFail(w.cfg, o, w) {
-			return "op-failed", fmt.Sprintf("%s failed although the reference applies it: %v", o, err)
+			return "observed:op-failed", fmt.Sprintf("%s failed although the reference applies it: %v", o, err)
 		}
 		w.model = before
 	} else if !expect {
